@@ -724,6 +724,8 @@ class CompositeEnvelopeContainer:
             Other composite envelope container
         """
         assert isinstance(other, CompositeEnvelopeContainer)
+        for state in other.states:
+            state.container = self
         self.states.extend(other.states)
         self.envelopes.extend(other.envelopes)
 
@@ -816,6 +818,8 @@ class CompositeEnvelope:
             CompositeEnvelope._instances[self.uid] = []
         CompositeEnvelope._instances[self.uid].append(self)
         self.update_composite_envelope_pointers()
+        # Product spaces taken over from merged containers changed their position
+        ce_container.update_all_indices()
 
     def __repr__(self) -> str:
         return (
